@@ -562,7 +562,7 @@ func cutSets(s *stream, k int) [][]int {
 
 func universe(r *ev.Run) (small, big []Case) {
 	smallLens := []int{0, 1, 2, 3, 250, 16379, 16380, 16381, 16384, 65536, 1 << 17}
-	bigLens := []int{M - 1, M, M + 1, 2 * M}
+	bigLens := []int{M - 1, M, M + 1, 2 * M, 2*M + 1} // 2M+1 = three data frames (added after seeded change c11-3 was missed: the third frame cut from the wrong offset)
 	if r.Thorough() {
 		bigLens = []int{M - 2, M - 1, M, M + 1, 2*M - 1, 2 * M, 2*M + 1, 3 * M}
 	}
